@@ -826,7 +826,9 @@ where
                 .copy_from_slice(&new_cell.full_data());
             *old_cell.metadata_mut() = *new_cell.metadata();
 
-            self.free_space_pointer_down(free_bytes);
+            // The cell shrank in place: the bytes it gave up are a hole behind it, somewhere in
+            // the middle of the cell area. They count as free space (defragmentation reclaims
+            // them) but the free space pointer must keep pointing at the lowest cell.
             self.add_free_space(free_bytes);
 
             return Ok(owned_cell);
